@@ -447,7 +447,7 @@ def cached(job, tier, key_material, compute):
             except Exception:
                 pass
         r = compute()
-        if r.get('status') in ('proved', 'failed'):
+        if r.get('status') in ('proved', 'failed') and not r.get('truncated'):
             json.dump(r, open(path, 'w'))
         return r
     finally:
@@ -683,8 +683,19 @@ def run_job_uncached(job, tier='quick', log=print):
     if not verdicts and job.get('split', 'auto') in ('auto', 'always'):
         # split mode: each contract-level property on its own, the support properties together
         st = job.get('timeout', {}).get(tier, 300 if tier == 'quick' else 1800)
+        def counts(pr):
+            # does a failure of this CBMC property count for the property being checked (VP_PID)?  unnamed obligations count for all
+            from recipes import COMPOSED_OF
+            pid = os.environ.get('VP_PID')
+            name, _k = classify(pr, meta['names'])
+            if not pid or not name or not re.match(r'^C\d\d', name):
+                return True
+            pre = name.split('.')[0]
+            return pre == pid or pre in COMPOSED_OF.get(pid, ())
         props, notes = B1.split_run(igb, solvers, st, workers=job.get('split_workers', 6), object_bits=job.get('object_bits', 12), extra=job.get('cbmc_flags', []),
-                                    failfast=(tier == 'quick' and not os.environ.get('VP_NO_FAILFAST')))
+                                    failfast=(counts if (tier == 'quick' and not os.environ.get('VP_NO_FAILFAST')) else None))
+        if any('obligations not yet started were skipped' in x for x in notes):
+            res['truncated'] = True
         res['notes'] = [n for n in res['notes'] if 'no answer' not in n] + ['split mode (one run per contract-level property)'] + notes
         res['cmds'].append('cbmc %s --json-ui --object-bits %d %s --trace --property <id> {--cvc5 | --sat-solver cadical}   # once per contract-level property' % (igb, job.get('object_bits', 12), ' '.join(B1.CHECK_FLAGS)))
         if props is not None:
